@@ -82,9 +82,10 @@ P1_COMBOS = " ".join("+".join(c) for c in popgen.COMPLEX_LEGAL)
 def pass1_disagreement(hfile, wdir, data, conforming):
     """None, or a description of how the model's first pass differs from the reader's; prefixed with UNMODELLED when the
     model stopped following the reader (then only the instances up to that point are compared)"""
-    k = data.find(b"DATA;")
-    if k < 0:
+    m_ = re.search(rb"\bDATA\s*;", data)
+    if not m_:
         return None
+    k = m_.end() - 5
     fin = os.path.join(wdir, "p1.p21")
     open(fin, "wb").write(data)
     rc, out, err = shb([hfile, "read", fin], timeout=90)
